@@ -12,16 +12,16 @@ import (
 // 100 / 0, which the symbolic value covers; ORIGIN is well-known mandatory (premise (ii) of DESIGN).
 
 type c03cand struct {
-	p                 *Path
-	stale, nhinv      bool
-	lp, med           uint32
-	origin            uint8
-	seg1typ, seg2typ  uint8
-	n1, n2            int
-	first             uint32 // first AS of the first non-confed segment, 0 if none
-	local             bool
-	src               *PeerInfo
-	ts                uint16
+	p                *Path
+	stale, nhinv     bool
+	lp, med          uint32
+	origin           uint8
+	seg1typ, seg2typ uint8
+	n1, n2           int
+	first            uint32 // first AS of the first non-confed segment, 0 if none
+	local            bool
+	src              *PeerInfo
+	ts               uint16
 }
 
 func c03segLen(typ uint8, n int) int {
@@ -280,10 +280,11 @@ func VH_c03_order() { c03order(true) }
 
 // law 5: the equal-cost multipath set of a sorted list. "Equal cost" = the documented steps up to
 // and including eBGP-over-iBGP do not separate the route from the best one (c03refSteps(...,false)==0).
-//   M1 every member is usable and the first member is the best route;
-//   M2 every member is equal-cost with the best;
-//   M3 (only where Path.Compare and the documented steps coincide: MED comparable, AS_PATH length
-//      not ignored, no confederation sources) every usable equal-cost route is a member.
+//
+//	M1 every member is usable and the first member is the best route;
+//	M2 every member is equal-cost with the best;
+//	M3 (only where Path.Compare and the documented steps coincide: MED comparable, AS_PATH length
+//	   not ignored, no confederation sources) every usable equal-cost route is a member.
 func c03multipath(medPremise bool) {
 	c03opts()
 	a, b, c := c03mk("a", !medPremise, false), c03mk("b", !medPremise, false), c03mk("c", !medPremise, false)
